@@ -350,17 +350,25 @@ def check_wait_iterator(ck):
     # _return_result: chain into the running future, take-and-clear it, consume one index entry
     p = [x for x in rr.params() if x != "self"]
     chains = own_find(rr, lambda x: q.is_call(x, "chain_future"))
-    ck.floor("C36.waititer", len(chains), 1, "chain_future calls in _return_result")
+    # the outcome may also be copied by hand: then the reads of the finished input are governed by the cancel-aware rule
+    # (a cancelled input must not raise out of the done-callback and leave next()'s future pending) and the settles by SETTLE
+    n_reads = sum(check_outcome_reads(ck, "C36.cancel-aware", f_) for f_ in (rr, dcb, nxt))
+    manual = [s_ for s_ in own_settle_sites(rr) if s_[2] == RUN] + own_find(rr, lambda x: method_call_on(x, RUN, "cancel"))
+    if not chains and not manual:
+        raise AnalysisError("%s: cannot see how _return_result transfers the input's outcome to the running future" % rr.site())
+    if not chains:
+        ck.note("_return_result copies the outcome by hand (%d settle/cancel sites, %d outcome reads)" % (len(manual), n_reads))
     cleared = event_facts(rr, {"cleared": node_assigns(RUN, is_none)}, cond_facts=False)
     for nd, c in chains:
         ck.ob("C36.waititer", rr, c, q.dotted(q.arg(c, 0)) == p[0] and q.dotted(q.arg(c, 1)) == RUN, "the delivered input is chained into the running future")
         ck.ob("C36.waititer", rr, c, ("@cleared", True) not in cleared[nd.id], "chaining happens before the running future is cleared")
     pops = node_counts(rr, lambda x: method_call_on(x, UNF, "pop") and len(x.args) == 1 and q.dotted(x.args[0]) == p[0])
-    cc = node_counts(rr, lambda x: any(x is c for _, c in chains))
+    deliver = [c for _, c in chains] + [(m[1] if len(m) == 4 else m[1]) for m in manual]
+    cc = node_counts(rr, lambda x: any(x is c for c in deliver))
     cl = {nd.id: 1 for nd in rr.cfg.stmt_nodes(node_assigns(RUN, is_none))}
     normal, _ = exit_states(rr.cfg, (0, 0, 0), lambda nd, v: (min(2, v[0] + cc.get(nd.id, 0)), min(2, v[1] + pops.get(nd.id, 0)), min(2, v[2] + cl.get(nd.id, 0))))
     for _f, v in normal:
-        ck.ob("C36.waititer", rr, rr.node, v == (1, 1, 1), "every normal path of _return_result chains once, consumes one index entry and clears the running future (chains=%d index-pops=%d clears=%d)" % v, construct="exit chains=%d pops=%d clears=%d" % v)
+        ck.ob("C36.waititer", rr, rr.node, v == (1, 1, 1), "every normal path of _return_result transfers the outcome once, consumes one index entry and clears the running future (transfers=%d index-pops=%d clears=%d)" % v, construct="exit chains=%d pops=%d clears=%d" % v)
     idx = [st for st in q.stores_to(rr.node, "self.current_index")]
     ck.ob("C36.waititer", rr, rr.node, len(idx) == 1 and method_call_on(getattr(idx[0], "value", None), UNF, "pop"), "current_index is the index entry of the delivered input", construct="current_index source")
     cur = [st for st in q.stores_to(rr.node, "self.current_future")]
@@ -562,6 +570,7 @@ def _narrow_cancel_handler(root):
 
 
 MUTANTS = [
+    ("WaitIterator._return_result copies the outcome by hand with done.exception() (seeded C36-adv5)", _in(G, "WaitIterator._return_result", replace_stmt(lambda st: isinstance(st, ast.Expr) and "chain_future" in ast.unparse(st), lambda st: [parse_stmt("exc = done.exception()"), parse_stmt("if exc is not None:\n    self._running_future.set_exception(exc)\nelse:\n    self._running_future.set_result(done.result())")])), "C36.cancel-aware"),
     ("WaitIterator delivers into a cancelled next() future (`is not None` only; seeded C36-adv4)", _in(G, "WaitIterator._done_callback", replace_expr(lambda n: isinstance(n, ast.BoolOp), lambda n: parse_expr("self._running_future is not None"))), "C36.waititer"),
     ("multi fills the unfinished set while registering (seeded C36-adv2)", _in(G, "multi_future", lambda root: _merge_sets(root)), "C36.multi"),
     ("WaitIterator.done() ignores inputs that finished but were not yet delivered", _in(G, "WaitIterator.done", replace_expr(lambda n: isinstance(n, ast.BoolOp) and isinstance(n.op, ast.Or), lambda n: n.values[1])), "C36.waititer"),
